@@ -48,8 +48,9 @@ theorem getLast_idx {α} (l : List α) (a : α) (h : l.getLast? = some a) : l[l.
 theorem lt_min_aux (n w T V : Nat) (h1 : n ≤ w) (h2 : w < V) (hT : 0 < T) : n < min (n + T * 2) V := by
   rw [Nat.lt_min]; omega
 
-/-- the end of a blocked round -/
-theorem phaseW {n0 : Nat} {s3 : Stream} (hr : Reach s3) (ok : RcvOk s3.rcv) (hs : SndOk s3.snd) (k : K n0 s3)
+/-- the end of a blocked round (only the data clause `k3` of the picking-phase invariant is needed) -/
+theorem phaseW_core {n0 : Nat} {s3 : Stream} (hr : Reach s3) (ok : RcvOk s3.rcv) (hs : SndOk s3.snd)
+    (k3 : ∀ x, x < s3.snd.written.length → (s3.snd.status x).pickable = true ∨ Have s3.rcv x ∨ CovNew n0 s3.emitted x)
     (hblk : s3.snd.maxData < s3.snd.written.length) (hidle : s3.snd.somePick = none) (hw : Flow s3)
     (hlen : s3.snd.written.length < varintMax) {cap : Nat} (hcap : s3.snd.written.length < cap) :
     let s5 := s3.run (settleOps (fun _ => true) (List.range' n0 (s3.emitted.length - n0)) ++ [.read cap])
@@ -85,7 +86,7 @@ theorem phaseW {n0 : Nat} {s3 : Stream} (hr : Reach s3) (ok : RcvOk s3.rcv) (hs 
   have hall : ∀ y, y < s3.snd.maxData → Have s4.rcv y := by
     intro y hy
     have hyw : y < s3.snd.written.length := by omega
-    rcases k.k3 y hyw with a | a | a
+    rcases k3 y hyw with a | a | a
     · rw [np y hyw hy] at a; cases a
     · exact hm4.hv y a
     · obtain ⟨i, h1, f, h2, h3⟩ := a
@@ -161,5 +162,14 @@ theorem phaseW {n0 : Nat} {s3 : Stream} (hr : Reach s3) (ok : RcvOk s3.rcv) (hs 
     refine ⟨⟨?_, Or.inl (by rw [hmd6, hrcv6, hsd5])⟩, by rw [hmd6]; exact hgt⟩
     rw [hrcv6, hsd5, ev, ← hrcv5]
     exact lt_min_aux _ _ _ _ hn5 hlen hT
+
+/-- the end of a blocked round -/
+theorem phaseW {n0 : Nat} {s3 : Stream} (hr : Reach s3) (ok : RcvOk s3.rcv) (hs : SndOk s3.snd) (k : K n0 s3)
+    (hblk : s3.snd.maxData < s3.snd.written.length) (hidle : s3.snd.somePick = none) (hw : Flow s3)
+    (hlen : s3.snd.written.length < varintMax) {cap : Nat} (hcap : s3.snd.written.length < cap) :
+    let s5 := s3.run (settleOps (fun _ => true) (List.range' n0 (s3.emitted.length - n0)) ++ [.read cap])
+    let s6 := s5.step (.deliverMsd (s5.msds.length - 1))
+    Flow s6 ∧ s3.snd.maxData < s6.snd.maxData :=
+  phaseW_core hr ok hs k.k3 hblk hidle hw hlen hcap
 
 end GmQuic.Stream
